@@ -1,55 +1,471 @@
 import ApdVerif.Spec.Agrees
+import ApdVerif.Lemmas.RoundCoreLemmas
 /-!
 # Round core: `Context.round` (= `Rounder.Round` + `setExponent`) agrees with the specification,
 and so do the operations that compute an exact intermediate and end in it.
 -/
 namespace Apd.Props
-open Apd Apd.Oracle
+open Apd Apd.Oracle Cond
+
+/-! ## the four paths of `Context.round` -/
+
+theorem exactRound_eq (x : Dec) : exactRound x = { neg := x.neg, num := x.coeff, den := 1, e10 := x.exp } := rfl
+
+theorem roundCore_zero (c : Ctx) (hc : c.WF) (x : Dec) (hx : x.form = .finite) (hn : x.coeff = 0)
+    (h : NoSys (roundX c x true).2) :
+    Agrees c (exactRound x) (roundX c x true).1 (roundX c x true).2 := by
+  obtain ⟨hp1, hpe, hemax, hemin, hemin0⟩ := hc
+  have hr := roundX_short c x true hx hp1 (by rw [hn]; exact hp1) (Or.inl hn)
+  rw [hr] at h ⊢
+  obtain ⟨hx0, ha1, ha2⟩ := setExponent_noSys _ _ _ _ h
+  have hs := specRound_zero c x.neg x.exp
+  rw [← hn, ← exactRound_eq] at hs
+  have hsum : sumInts [x.exp, 0] = x.exp := by simp [sumInts]
+  have hadj : seAdj x [x.exp, 0] = x.exp := by simp [seAdj, hsum, hn, ndigits_zero]
+  have hz : x.isZero = true := by simp [Dec.isZero, hx, hn]
+  have hnd0 : ndigits 0 = 1 := rfl
+  by_cases c1 : x.exp < c.emin
+  · by_cases c2 : x.exp < c.etiny
+    · rw [setExponent_subnormal_round c x {} _ hx0 (by omega) (by omega) (by omega) (by omega)]
+      rw [hsum]
+      have hra : roundAt c.mode x.neg x.coeff 1 x.exp c.etiny = (0, false) := by
+        rw [roundAt_div _ _ _ _ _ (by omega), hn]; simp
+      simp only [hra, hz]
+      apply agrees_finite c _ _ hs <;> simp [seFinish, hx, hn, cClamped, cRounded, cUnderflow, hnd0]
+      all_goals (unfold Ctx.etiny at *; omega)
+    · rw [setExponent_subnormal_exact c x {} _ hx0 (by omega) (by omega) (by omega) (by omega)]
+      rw [hsum]
+      simp only [hz]
+      apply agrees_finite c _ _ hs <;> simp [seFinish, hx, hn, hnd0]
+      all_goals (unfold Ctx.etiny at *; omega)
+  · by_cases c3 : c.emax < x.exp
+    · rw [setExponent_clampZero c x {} _ hx0 (by omega) (by omega) (by omega) (by omega) hz]
+      apply agrees_finite' c _ _ hs <;> simp [seFinish, hx, hn, hnd0, cClamped, SpecOut.matches]
+      all_goals (unfold Ctx.etiny at *; omega)
+    · rw [setExponent_normal c x {} _ hx0 (by omega) (by omega) (by omega) (by omega)]
+      rw [hsum]
+      apply agrees_finite c _ _ hs <;> simp [seFinish, hx, hn, hnd0]
+      all_goals (unfold Ctx.etiny at *; omega)
+
+theorem roundCore_subnormal (c : Ctx) (hc : c.WF) (x : Dec) (hx : x.form = .finite) (hn : x.coeff ≠ 0)
+    (hadj : x.exp + (ndigits x.coeff : Int) - 1 < c.emin)
+    (h : NoSys (roundX c x true).2) :
+    Agrees c (exactRound x) (roundX c x true).1 (roundX c x true).2 := by
+  obtain ⟨hp1, hpe, hemax, hemin, hemin0⟩ := hc
+  rw [roundX_subnormal c x true hx hp1 hn hadj] at h ⊢
+  have h' : NoSys (setExponent c x cSubnormal [x.exp]).2 := by
+    simpa [NoSys, cSubnormal] using h
+  obtain ⟨hx0, ha1, ha2⟩ := setExponent_noSys _ _ _ _ h'
+  have hsum : sumInts [x.exp] = x.exp := by simp [sumInts]
+  have hadj' : seAdj x [x.exp] = x.exp + (ndigits x.coeff : Int) - 1 := by simp [seAdj, hsum]
+  have hz : x.isZero = false := by simp [Dec.isZero, hx, hn]
+  have hpos : 0 < x.coeff := Nat.pos_of_ne_zero hn
+  have hs := specRound_pos c x.neg x.coeff x.exp hpos
+  rw [← exactRound_eq] at hs
+  have hq : max ((ndigits x.coeff : Int) - 1 + x.exp - (c.prec : Int) + 1) c.etiny = c.etiny := by
+    unfold Ctx.etiny; omega
+  have hsub : decide ((ndigits x.coeff : Int) - 1 + x.exp < c.emin) = true := by
+    simp; omega
+  simp only [hq, hsub] at hs
+  have hnp := ndigits_pos x.coeff
+  by_cases c2 : x.exp < c.etiny
+  · rw [setExponent_subnormal_round c x _ _ hx0 (by omega) (by omega) (by omega) (by omega)]
+    rw [hsum]
+    have hle := roundAt_div_le c.mode x.neg x.coeff x.exp c.etiny (by omega)
+    have hlt : x.coeff < 10 ^ (c.emin - x.exp).toNat := lt_pow_of_ndigits_le _ _ (by omega)
+    have hk : (c.emin - x.exp).toNat = (c.prec - 1) + (c.etiny - x.exp).toNat := by
+      unfold Ctx.etiny at *; omega
+    have hdiv : x.coeff / 10 ^ (c.etiny - x.exp).toNat < 10 ^ (c.prec - 1) := by
+      rw [Nat.div_lt_iff_lt_mul (Nat.pow_pos (by decide)), ← Nat.pow_add, ← hk]; exact hlt
+    have hpow : 10 ^ (c.prec - 1) < 10 ^ c.prec := Nat.pow_lt_pow_right (by decide) (by omega)
+    have hndr : ndigits (roundAt c.mode x.neg x.coeff 1 x.exp c.etiny).1 ≤ c.prec :=
+      ndigits_le_of_lt_pow _ _ hp1 (by omega)
+    rcases hra : roundAt c.mode x.neg x.coeff 1 x.exp c.etiny with ⟨m, ix⟩
+    have hndr : ndigits m ≤ c.prec := by rw [hra] at hndr; exact hndr
+    have hnd0 : ndigits 0 = 1 := rfl
+    simp only [hra, hz] at hs ⊢
+    have hcond : ¬ (c.etiny + ((ndigits m : Nat) : Int) - 1 > c.emax) := by
+      unfold Ctx.etiny at *; omega
+    simp only [hcond, decide_false, Bool.and_false] at hs
+    by_cases hm : m = 0 <;> cases ix <;>
+    (apply agrees_finite c _ _ hs <;> simp [seFinish, hx, hm, cSubnormal, cInexact, cClamped, cRounded, cUnderflow])
+    all_goals (unfold Ctx.etiny at *; omega)
+  · rw [setExponent_subnormal_exact c x _ _ hx0 (by omega) (by omega) (by omega) (by omega)]
+    rw [hsum]
+    simp only [hz]
+    rw [roundAt_scale _ _ _ _ _ (by omega)] at hs
+    simp only [ndigits_mul_pow _ _ hpos] at hs
+    have hcond : ¬ (c.etiny + ((ndigits x.coeff + (x.exp - c.etiny).toNat : Nat) : Int) - 1 > c.emax) := by
+      unfold Ctx.etiny at *; omega
+    simp only [hcond, decide_false, Bool.and_false] at hs
+    apply agrees_finite c _ _ hs <;> simp [seFinish, hx, cSubnormal]
+    all_goals (unfold Ctx.etiny at *; omega)
+
+theorem roundCore_short (c : Ctx) (hc : c.WF) (x : Dec) (hx : x.form = .finite) (hn : x.coeff ≠ 0)
+    (hadj : c.emin ≤ x.exp + (ndigits x.coeff : Int) - 1) (hnd : ndigits x.coeff ≤ c.prec)
+    (h : NoSys (roundX c x true).2) :
+    Agrees c (exactRound x) (roundX c x true).1 (roundX c x true).2 := by
+  obtain ⟨hp1, hpe, hemax, hemin, hemin0⟩ := hc
+  rw [roundX_short c x true hx hp1 hnd (Or.inr hadj)] at h ⊢
+  obtain ⟨hx0, ha1, ha2⟩ := setExponent_noSys _ _ _ _ h
+  have hsum : sumInts [x.exp, 0] = x.exp := by simp [sumInts]
+  have hadj' : seAdj x [x.exp, 0] = x.exp + (ndigits x.coeff : Int) - 1 := by simp [seAdj, hsum]
+  have hz : x.isZero = false := by simp [Dec.isZero, hx, hn]
+  have hpos : 0 < x.coeff := Nat.pos_of_ne_zero hn
+  have hs := specRound_pos c x.neg x.coeff x.exp hpos
+  rw [← exactRound_eq] at hs
+  have hq : max ((ndigits x.coeff : Int) - 1 + x.exp - (c.prec : Int) + 1) c.etiny
+      = (ndigits x.coeff : Int) - 1 + x.exp - (c.prec : Int) + 1 := by
+    unfold Ctx.etiny; omega
+  have hsub : decide ((ndigits x.coeff : Int) - 1 + x.exp < c.emin) = false := by
+    simp; omega
+  simp only [hq, hsub] at hs
+  have hnp := ndigits_pos x.coeff
+  rw [roundAt_scale _ _ _ _ _ (by omega)] at hs
+  simp only [ndigits_mul_pow _ _ hpos] at hs
+  have hk : (x.exp - ((ndigits x.coeff : Int) - 1 + x.exp - (c.prec : Int) + 1)).toNat = c.prec - ndigits x.coeff := by
+    omega
+  rw [hk] at hs
+  have hne : (x.coeff * 10 ^ (c.prec - ndigits x.coeff) != 0) = true := by
+    have : 0 < x.coeff * 10 ^ (c.prec - ndigits x.coeff) := Nat.mul_pos hpos (Nat.pow_pos (by decide))
+    simp; omega
+  by_cases c3 : c.emax < x.exp + (ndigits x.coeff : Int) - 1
+  · rw [setExponent_overflow c x _ _ hx0 (by omega) (by omega) (by omega) (by omega) hz]
+    have hcond : ((ndigits x.coeff : Int) - 1 + x.exp - (c.prec : Int) + 1 +
+        ((ndigits x.coeff + (c.prec - ndigits x.coeff) : Nat) : Int) - 1 > c.emax) := by omega
+    simp only [hcond, hne, decide_true, Bool.and_true, if_true] at hs
+    apply agrees_inf c _ _ hs <;> simp [seFinish, hx, cOverflow, cInexact]
+  · rw [setExponent_normal c x _ _ hx0 (by omega) (by omega) (by omega) (by omega)]
+    have hcond : ¬ ((ndigits x.coeff : Int) - 1 + x.exp - (c.prec : Int) + 1 +
+        ((ndigits x.coeff + (c.prec - ndigits x.coeff) : Nat) : Int) - 1 > c.emax) := by omega
+    simp only [hcond, decide_false, Bool.and_false] at hs
+    rw [hsum]
+    apply agrees_finite c _ _ hs <;> simp [seFinish, hx, hk]
+    all_goals (unfold Ctx.etiny at *; omega)
+
+theorem roundCore_long (c : Ctx) (hc : c.WF) (x : Dec) (hx : x.form = .finite)
+    (hadj : c.emin ≤ x.exp + (ndigits x.coeff : Int) - 1) (hnd : c.prec < ndigits x.coeff)
+    (h : NoSys (roundX c x true).2) :
+    Agrees c (exactRound x) (roundX c x true).1 (roundX c x true).2 := by
+  obtain ⟨hp1, hpe, hemax, hemin, hemin0⟩ := hc
+  have hd : (ndigits x.coeff : Int) - (c.prec : Int) ≤ 100000 := by
+    by_contra hgt
+    have := roundX_long_sys c x true hx hp1 (by omega) hadj
+    simp [NoSys, this] at h
+  have hn : x.coeff ≠ 0 := by
+    intro h0; rw [h0] at hnd; have : ndigits 0 = 1 := rfl; omega
+  have hpos : 0 < x.coeff := Nat.pos_of_ne_zero hn
+  rw [roundX_long c x true hx hp1 hnd hd hadj] at h ⊢
+  obtain ⟨D, hD⟩ : ∃ D : Nat, D = ndigits x.coeff - c.prec := ⟨_, rfl⟩
+  have hDi : (ndigits x.coeff : Int) - (c.prec : Int) = (D : Int) := by omega
+  have hDn : ((D : Int)).toNat = D := by omega
+  simp only [hDi, hDn] at h ⊢
+  have hyd : ndigits (x.coeff / 10 ^ D) = c.prec := by rw [hD]; exact ndigits_div_pow _ _ hpos hp1 (by omega)
+  have hy : 0 < x.coeff / 10 ^ D := by
+    apply Nat.div_pos _ (Nat.pow_pos (by decide))
+    calc 10 ^ D ≤ 10 ^ (ndigits x.coeff - 1) := Nat.pow_le_pow_right (by decide) (by omega)
+      _ ≤ x.coeff := (ndigits_spec _ hpos).1
+  have hs := specRound_pos c x.neg x.coeff x.exp hpos
+  rw [← exactRound_eq] at hs
+  have hq : max ((ndigits x.coeff : Int) - 1 + x.exp - (c.prec : Int) + 1) c.etiny = x.exp + (D : Int) := by
+    unfold Ctx.etiny; omega
+  have hsub : decide ((ndigits x.coeff : Int) - 1 + x.exp < c.emin) = false := by
+    simp; omega
+  simp only [hq, hsub] at hs
+  have hstep := roundStep_spec c.mode x.neg x.coeff D x.exp hy
+  simp only [] at hstep
+  rw [hyd] at hstep
+  generalize hgy : (if x.coeff % 10 ^ D != 0 && shouldAddOne c.mode (x.coeff / 10 ^ D) x.neg (cmpNat (2 * (x.coeff % 10 ^ D)) (10 ^ D))
+              then roundAddOne (x.coeff / 10 ^ D) (D : Int) else (x.coeff / 10 ^ D, (D : Int))) = yd at hstep h ⊢
+  generalize hgr : roundAt c.mode x.neg x.coeff 1 x.exp (x.exp + (D : Int)) = ra at hstep hs
+  obtain ⟨y1, d1⟩ := yd
+  obtain ⟨m, ix⟩ := ra
+  simp only [] at hstep hs h ⊢
+  obtain ⟨s1, s2, s3, s4, s5, s6, s7⟩ := hstep
+  rw [← s7] at h ⊢
+  clear hgy hgr
+  generalize hres : (if ix = true then cRounded ||| cInexact else cRounded) = res at h ⊢
+  have hres' : res.inexact = ix ∧ res.rounded = true ∧ res.subnormal = false ∧ res.underflow = false ∧
+      res.overflow = false ∧ res.sysOverflow = false ∧ res.sysUnderflow = false ∧
+      res.divUndefined = false ∧ res.divByZero = false ∧ res.divImpossible = false ∧ res.invalidOp = false := by
+    rw [← hres]; cases ix <;> simp [cRounded, cInexact]
+  obtain ⟨r1, r2, r3, r4, r5, r6, r7, r8, r9, r10, r11⟩ := hres'
+  have h' : NoSys (setExponent c { form := x.form, neg := x.neg, exp := x.exp, coeff := y1 } res [x.exp, d1]).2 := by
+    simpa [NoSys, r6, r7] using h
+  obtain ⟨hx0, ha1, ha2⟩ := setExponent_noSys _ _ _ _ h'
+  have hsum : sumInts [x.exp, d1] = x.exp + d1 := by simp [sumInts]
+  have hadj' : seAdj { form := x.form, neg := x.neg, exp := x.exp, coeff := y1 } [x.exp, d1]
+      = x.exp + d1 + (ndigits y1 : Int) - 1 := by simp [seAdj, hsum]
+  have hz : Dec.isZero { form := x.form, neg := x.neg, exp := x.exp, coeff := y1 } = false := by
+    simp [Dec.isZero]; omega
+  have hm0 : (m != 0) = true := by
+    have : 0 < y1 * 10 ^ (d1 - (D : Int)).toNat := Nat.mul_pos s1 (Nat.pow_pos (by decide))
+    simp; omega
+  have hnp := ndigits_pos x.coeff
+  by_cases c3 : c.emax < x.exp + d1 + (ndigits y1 : Int) - 1
+  · rw [setExponent_overflow c _ _ _ hx0 (by omega) (by omega) (by omega) (by omega) hz]
+    have hcond : (x.exp + (D : Int) + (ndigits m : Int) - 1 > c.emax) := by omega
+    simp only [hcond, hm0, decide_true, Bool.and_true, if_true] at hs
+    apply agrees_inf c _ _ hs <;> simp [seFinish, hx, cOverflow, cInexact, r1, r2, r3, r4, r5, r8, r9, r10, r11]
+  · rw [setExponent_normal c _ _ _ hx0 (by omega) (by omega) (by omega) (by omega)]
+    have hcond : ¬ (x.exp + (D : Int) + (ndigits m : Int) - 1 > c.emax) := by omega
+    simp only [hcond, decide_false, Bool.and_false] at hs
+    rw [hsum]
+    apply agrees_finite c _ _ hs <;> simp [seFinish, hx, r1, r2, r3, r4, r5, r8, r9, r10, r11]
+    all_goals (try (unfold Ctx.etiny at *; omega))
+    have e1 : d1.toNat - D = (d1 - (D : Int)).toNat := by omega
+    rw [e1]; exact s5
 
 /-! ## Round (and everything that ends in `Context.round`) -/
 
 theorem C01_roundCore (c : Ctx) (hc : c.WF) (x : Dec) (hx : x.form = .finite)
     (h : NoSys (ctxRound c x).2) :
     Agrees c (exactRound x) (ctxRound c x).1 (ctxRound c x).2 := by
-  sorry
+  unfold ctxRound at *
+  by_cases hn : x.coeff = 0
+  · exact roundCore_zero c hc x hx hn h
+  · by_cases hadj : x.exp + (ndigits x.coeff : Int) - 1 < c.emin
+    · exact roundCore_subnormal c hc x hx hn hadj h
+    · by_cases hnd : ndigits x.coeff ≤ c.prec
+      · exact roundCore_short c hc x hx hn (by omega) hnd h
+      · exact roundCore_long c hc x hx (by omega) (by omega) h
+
+theorem specExact_dec (c : Ctx) (neg : Bool) (n : Nat) (e : Int) :
+    specExact c { neg := neg, num := n, den := 1, e10 := e } =
+      if n = 0 then some { neg := neg, m := 0, q := e }
+      else if (ndigits n : Int) - 1 + e < c.emin ∨ (ndigits n : Int) - 1 + e > c.emax then none
+      else some { neg := neg, m := n, q := e } := by
+  simp [specExact]
 
 theorem C01_roundCore_prec0 (c : Ctx) (hc : c.WF0) (hp : c.prec = 0) (x : Dec) (hx : x.form = .finite)
     (h : NoSys (ctxRound c x).2) :
     AgreesExact c (exactRound x) (ctxRound c x).1 (ctxRound c x).2 := by
-  sorry
+  obtain ⟨hpe, hemax0, hemax, hemin, hemin0⟩ := hc
+  have hr : ctxRound c x = setExponent c x {} [x.exp] := by
+    unfold ctxRound roundX; simp [hp]
+  rw [hr] at h ⊢
+  obtain ⟨hx0, ha1, ha2⟩ := setExponent_noSys _ _ _ _ h
+  have hsum : sumInts [x.exp] = x.exp := by simp [sumInts]
+  have hadj' : seAdj x [x.exp] = x.exp + (ndigits x.coeff : Int) - 1 := by simp [seAdj, hsum]
+  have het : c.etiny = c.emin + 1 := by unfold Ctx.etiny; rw [hp]; simp
+  intro s hs
+  rw [exactRound_eq, specExact_dec] at hs
+  by_cases hn : x.coeff = 0
+  · have hnd0 : ndigits 0 = 1 := rfl
+    rw [hn, hnd0] at hadj'
+    have hz : x.isZero = true := by simp [Dec.isZero, hx, hn]
+    rw [if_pos hn] at hs
+    injection hs with hs
+    subst hs
+    by_cases c1 : x.exp < c.emin
+    · rw [setExponent_subnormal_round c x {} _ hx0 (by omega) (by omega) (by omega) (by omega)]
+      rw [hsum]
+      have hra : roundAt c.mode x.neg x.coeff 1 x.exp c.etiny = (0, false) := by
+        rw [roundAt_div _ _ _ _ _ (by omega), hn]; simp
+      simp only [hra, hz]
+      simp [seFinish, hx, hn, cClamped, cRounded, SpecOut.matches]
+    · by_cases c3 : c.emax < x.exp
+      · rw [setExponent_clampZero c x {} _ hx0 (by omega) (by omega) (by omega) (by omega) hz]
+        simp [seFinish, hx, hn, cClamped, SpecOut.matches]
+      · rw [setExponent_normal c x {} _ hx0 (by omega) (by omega) (by omega) (by omega)]
+        simp [seFinish, hx, hn, SpecOut.matches]
+  · rw [if_neg hn] at hs
+    by_cases hrange : (ndigits x.coeff : Int) - 1 + x.exp < c.emin ∨ (ndigits x.coeff : Int) - 1 + x.exp > c.emax
+    · rw [if_pos hrange] at hs; cases hs
+    rw [if_neg hrange] at hs
+    injection hs with hs
+    subst hs
+    rw [setExponent_normal c x {} _ hx0 (by omega) (by omega) (by omega) (by omega)]
+    simp [seFinish, hx, hsum, SpecOut.matches]
+
+/-! ## corollaries -/
+
+theorem notNaN2_of_finite (x y : Dec) (hx : x.form = .finite) (hy : y.form = .finite) :
+    shouldSetAsNaN x (some y) = false := by
+  simp [shouldSetAsNaN, Dec.isNaN, hx, hy]
+
+theorem upscale_some (x y : Dec) (a b : Nat) (s : Int) (h : upscale x y = some (a, b, s)) :
+    s = min x.exp y.exp ∧ a = x.coeff * 10 ^ (x.exp - min x.exp y.exp).toNat ∧
+    b = y.coeff * 10 ^ (y.exp - min x.exp y.exp).toNat := by
+  unfold upscale at h
+  by_cases h1 : x.exp = y.exp
+  · simp [h1] at h
+    obtain ⟨rfl, rfl, rfl⟩ := h
+    simp [h1]
+  · have h1' : (x.exp == y.exp) = false := by simpa using h1
+    simp only [h1', Bool.false_eq_true, if_false] at h
+    by_cases h2 : x.exp < y.exp
+    · simp only [h2, if_true] at h
+      split_ifs at h
+      simp only [Option.some.injEq, Prod.mk.injEq] at h
+      obtain ⟨rfl, rfl, rfl⟩ := h
+      have hm : min x.exp y.exp = x.exp := by omega
+      rw [hm]; simp
+    · simp only [h2, if_false] at h
+      split_ifs at h
+      simp only [Option.some.injEq, Prod.mk.injEq] at h
+      obtain ⟨rfl, rfl, rfl⟩ := h
+      have hm : min x.exp y.exp = y.exp := by omega
+      rw [hm]; simp
+
+theorem add_core (c : Ctx) (x y : Dec) (sub : Bool) (hx : x.form = .finite) (hy : y.form = .finite) :
+    (∃ d : Dec, d.form = .finite ∧ addOp c x y sub = finish c (ctxRound c d) ∧
+        exactAdd c x y sub = exactRound d) ∨ (addOp c x y sub).err = .sys := by
+  unfold addOp
+  rw [notNaN2_of_finite x y hx hy]
+  simp only [hx, hy, Bool.false_eq_true, if_false]
+  have hfi : (Form.finite == Form.infinite) = false := by decide
+  simp only [hfi, Bool.or_self, Bool.false_eq_true, if_false]
+  cases hu : upscale x y with
+  | none => right; simp [failWith]
+  | some t =>
+    obtain ⟨a, b, s⟩ := t
+    obtain ⟨hs, ha, hb⟩ := upscale_some x y a b s hu
+    left
+    refine ⟨_, ?_, rfl, ?_⟩
+    · split_ifs <;> rfl
+    · unfold exactAdd exactRound
+      subst hs
+      simp only [← ha, ← hb]
+      rcases Nat.lt_trichotomy a b with hab | hab | hab
+      · have h1 : ¬ a > b := by omega
+        cases hxn : x.neg <;> cases hyn : y.neg <;> cases sub <;> simp [hab, h1]
+      · subst hab
+        cases hxn : x.neg <;> cases hyn : y.neg <;> cases sub <;> simp
+      · have h1 : ¬ a < b := by omega
+        have h2 : ¬ a = b := by omega
+        cases hxn : x.neg <;> cases hyn : y.neg <;> cases sub <;> simp [hab, h1, h2]
+
+theorem notNaN_of_finite (x : Dec) (hx : x.form = .finite) : shouldSetAsNaN x none = false := by
+  simp [shouldSetAsNaN, Dec.isNaN, hx]
 
 theorem C01_round (c : Ctx) (hc : c.WF) (x : Dec) (hx : x.form = .finite)
     (h : Delivered (roundOp c x).err) :
     Agrees c (exactRound x) (roundOp c x).d (roundOp c x).fl := by
-  sorry
+  have e : roundOp c x = finish c (ctxRound c x) := by
+    unfold roundOp; rw [notNaN_of_finite x hx]; simp
+  rw [e] at h ⊢
+  exact C01_roundCore c hc x hx (noSys_of_delivered _ _ h)
 
 theorem C01_abs (c : Ctx) (hc : c.WF) (x : Dec) (hx : x.form = .finite)
     (h : Delivered (absOp c x).err) :
     Agrees c (exactAbs x) (absOp c x).d (absOp c x).fl := by
-  sorry
+  have e : absOp c x = finish c (ctxRound c x.absD) := by
+    unfold absOp; rw [notNaN_of_finite x hx]; simp
+  rw [e] at h ⊢
+  have e2 : exactAbs x = exactRound x.absD := rfl
+  rw [e2]
+  exact C01_roundCore c hc x.absD hx (noSys_of_delivered _ _ h)
 
 theorem C01_neg (c : Ctx) (hc : c.WF) (x : Dec) (hx : x.form = .finite)
     (h : Delivered (negOp c x).err) :
     Agrees c (exactNeg x) (negOp c x).d (negOp c x).fl := by
-  sorry
+  have e : negOp c x = finish c (ctxRound c x.negD) := by
+    unfold negOp; rw [notNaN_of_finite x hx]; simp
+  rw [e] at h ⊢
+  have hf : x.negD.form = .finite := by
+    unfold Dec.negD; split_ifs <;> exact hx
+  have e2 : exactNeg x = exactRound x.negD := by
+    unfold exactNeg exactRound Dec.negD Dec.isZero
+    by_cases h0 : x.coeff = 0
+    · simp [h0, hx]
+    · simp [h0, hx]
+  rw [e2]
+  exact C01_roundCore c hc x.negD hf (noSys_of_delivered _ _ h)
 
-/-- Add and Sub (`sub = true`) -/
 theorem C01_add (c : Ctx) (hc : c.WF) (x y : Dec) (sub : Bool)
     (hx : x.form = .finite) (hy : y.form = .finite)
     (h : Delivered (addOp c x y sub).err) :
     Agrees c (exactAdd c x y sub) (addOp c x y sub).d (addOp c x y sub).fl := by
-  sorry
+  rcases add_core c x y sub hx hy with ⟨d, hd, e1, e2⟩ | hsys
+  · rw [e1] at h ⊢
+    rw [e2]
+    exact C01_roundCore c hc d hd (noSys_of_delivered _ _ h)
+  · rw [hsys] at h
+    rcases h with h | h <;> cases h
 
 theorem C01_add_prec0 (c : Ctx) (hc : c.WF0) (hp : c.prec = 0) (x y : Dec) (sub : Bool)
     (hx : x.form = .finite) (hy : y.form = .finite)
     (h : Delivered (addOp c x y sub).err) :
     AgreesExact c (exactAdd c x y sub) (addOp c x y sub).d (addOp c x y sub).fl := by
-  sorry
+  rcases add_core c x y sub hx hy with ⟨d, hd, e1, e2⟩ | hsys
+  · rw [e1] at h ⊢
+    rw [e2]
+    exact C01_roundCore_prec0 c hc hp d hd (noSys_of_delivered _ _ h)
+  · rw [hsys] at h
+    rcases h with h | h <;> cases h
 
 /-- non-vacuity: inside the package limits a Round is always delivered -/
 theorem roundCore_noSys (c : Ctx) (hc : c.WF) (x : Dec) (hx : x.form = .finite) (hxw : x.WF)
     (h1 : ndigits x.coeff ≤ 100000) (h2 : x.exp + (ndigits x.coeff : Int) - 1 < 100000) :
     NoSys (ctxRound c x).2 := by
-  sorry
+  obtain ⟨hp1, hpe, hemax, hemin, hemin0⟩ := hc
+  obtain ⟨w1, w2, w3, w4⟩ := hxw
+  unfold ctxRound
+  have hnoSys0 : NoSys ({} : Cond) := ⟨rfl, rfl⟩
+  have hck : checkXs [x.exp, 0] = none := by
+    rw [checkXs_none_iff]; simp; omega
+  have hck1 : checkXs [x.exp] = none := by
+    rw [checkXs_none_iff]; simp; omega
+  have hsum : sumInts [x.exp, 0] = x.exp := by simp [sumInts]
+  have hsum1 : sumInts [x.exp] = x.exp := by simp [sumInts]
+  have hshort : NoSys (setExponent c x {} [x.exp, 0]).2 :=
+    setExponent_noSys_of c x {} _ hck (by simp [seAdj, hsum]; omega) (by simp [seAdj, hsum]; omega) hnoSys0
+  by_cases hn : x.coeff = 0
+  · rw [roundX_short c x true hx hp1 (by rw [hn]; exact hp1) (Or.inl hn)]
+    exact hshort
+  · by_cases hadj : x.exp + (ndigits x.coeff : Int) - 1 < c.emin
+    · rw [roundX_subnormal c x true hx hp1 hn hadj]
+      have := setExponent_noSys_of c x cSubnormal _ hck1 (by simp [seAdj, hsum1]; omega)
+        (by simp [seAdj, hsum1]; omega) ⟨rfl, rfl⟩
+      obtain ⟨t1, t2⟩ := this
+      refine ⟨?_, ?_⟩
+      · rw [Cond.or_sysOverflow, t1]; rfl
+      · rw [Cond.or_sysUnderflow, t2]; rfl
+    · by_cases hnd : ndigits x.coeff ≤ c.prec
+      · rw [roundX_short c x true hx hp1 hnd (Or.inr (by omega))]
+        exact hshort
+      · have hpos : 0 < x.coeff := Nat.pos_of_ne_zero hn
+        rw [roundX_long c x true hx hp1 (by omega) (by omega) (by omega)]
+        obtain ⟨D, hD⟩ : ∃ D : Nat, D = ndigits x.coeff - c.prec := ⟨_, rfl⟩
+        have hDi : (ndigits x.coeff : Int) - (c.prec : Int) = (D : Int) := by omega
+        have hDn : ((D : Int)).toNat = D := by omega
+        simp only [hDi, hDn]
+        have hyd : ndigits (x.coeff / 10 ^ D) = c.prec := by
+          rw [hD]; exact ndigits_div_pow _ _ hpos hp1 (by omega)
+        have hy : 0 < x.coeff / 10 ^ D := by
+          apply Nat.div_pos _ (Nat.pow_pos (by decide))
+          calc 10 ^ D ≤ 10 ^ (ndigits x.coeff - 1) := Nat.pow_le_pow_right (by decide) (by omega)
+            _ ≤ x.coeff := (ndigits_spec _ hpos).1
+        have hstep := roundStep_spec c.mode x.neg x.coeff D x.exp hy
+        simp only [] at hstep
+        rw [hyd] at hstep
+        generalize (if x.coeff % 10 ^ D != 0 && shouldAddOne c.mode (x.coeff / 10 ^ D) x.neg (cmpNat (2 * (x.coeff % 10 ^ D)) (10 ^ D))
+              then roundAddOne (x.coeff / 10 ^ D) (D : Int) else (x.coeff / 10 ^ D, (D : Int))) = yd at hstep ⊢
+        obtain ⟨y1, d1⟩ := yd
+        simp only [] at hstep ⊢
+        obtain ⟨s1, s2, s3, s4, s5, s6, s7⟩ := hstep
+        have hres : NoSys (if (x.coeff % 10 ^ D != 0) = true then cRounded ||| cInexact else cRounded) := by
+          split_ifs <;> exact ⟨rfl, rfl⟩
+        have hckd : checkXs [x.exp, d1] = none := by
+          rw [checkXs_none_iff]; simp; omega
+        have hsumd : sumInts [x.exp, d1] = x.exp + d1 := by simp [sumInts]
+        have := setExponent_noSys_of c { form := x.form, neg := x.neg, exp := x.exp, coeff := y1 }
+          (if (x.coeff % 10 ^ D != 0) = true then cRounded ||| cInexact else cRounded) _ hckd
+          (by simp [seAdj, hsumd]; omega) (by simp [seAdj, hsumd]; omega) hres
+        obtain ⟨t1, t2⟩ := this
+        obtain ⟨u1, u2⟩ := hres
+        refine ⟨?_, ?_⟩
+        · rw [Cond.or_sysOverflow, t1, u1]; rfl
+        · rw [Cond.or_sysUnderflow, t2, u2]; rfl
 
 end Apd.Props
+
+#print axioms Apd.Props.C01_roundCore
+#print axioms Apd.Props.C01_roundCore_prec0
+#print axioms Apd.Props.C01_round
+#print axioms Apd.Props.C01_abs
+#print axioms Apd.Props.C01_neg
+#print axioms Apd.Props.C01_add
+#print axioms Apd.Props.C01_add_prec0
+#print axioms Apd.Props.roundCore_noSys
